@@ -1,27 +1,89 @@
-"""C10 — the spool preserves message bytes and envelope, and never stores credentials (DESIGN.md §4 C10)."""
+"""C10 — the spool preserves message bytes and envelope, and never stores credentials (DESIGN.md §4 C10).
+
+T1  Generated/MetaFields.lean : every struct field reachable from queue.QueueMetadata, by reflection inside the current
+                                tree (TestVerifC10Fields, injected into internal/target/queue)
+    Generated/MetaEnc.lean    : go/ast skeleton of updateMetadataOnDisk / readMessageMeta / DeepCopy and every file-writing
+                                call of the queue package (tools/extract metaenc)
+T2  C10 parse / rt            : the real textproto.ReadHeader / WriteHeader vs Model/Wire.lean
+    C10 run                   : one message through the REAL queue under a history restart x retry vs Model/WireSpool.lean
+    (C10 smtp)                : the same behind a REAL SMTP endpoint + pipeline; handed to the model as a `C10 run` line
+T3  monitor                   : every attempt compared byte for byte with what was accepted; every spool file grepped for
+                                the credentials of the authenticated connection
+"""
+import os
+import re
+import sys
 
 PKGS = ["./internal/target/queue/"]
+RUN = "^TestVerifC10(Header|Run|Smtp)$"
+
+
+def gen_fields(c):
+    """T1: regenerate Generated/MetaFields.lean by reflection over the CURRENT tree's types."""
+    import vlib
+    rc, out, outdir = c.go_harness(PKGS, "^TestVerifC10Fields$", name="fields")
+    src = os.path.join(outdir, "c10_metafields.lean")
+    if rc != 0 or not os.path.exists(src):
+        c.obligations.append(dict(name="extract:metafields (reflection)", kind="T1", ok=False, detail=out[-1500:]))
+        c.proof_broken.append("extract:metafields")
+        return False
+    content = open(src).read()
+    with vlib.Lock("lean"):
+        vlib.write_if_changed(os.path.join(vlib.LEAN, "MaddyVerif", "Generated", "MetaFields.lean"), content)
+    c.stats["t1_fields_total"] = len(re.findall(r"^\s+⟨\[", content, re.M))
+    c.stats["t1_fields_outside_conn"] = len([l for l in content.split("\n") if l.strip().startswith("⟨[") and '"Conn"' not in l])
+    return True
 
 
 def harness(c, n, replay_ops=None):
-    rc, out, outdir = c.go_harness(PKGS, "^TestVerifC10", n=n, replay_ops=replay_ops)
-    corr, _ = c.collect(outdir)
+    rc, out, outdir = c.go_harness(PKGS, RUN, n=n, replay_ops=replay_ops, timeout=2400)
+    corr, _ = c.collect(outdir, names=["c10_hdr", "c10_run", "c10_smtp"])
     c.correspond(corr)
 
 
 def run(c):
+    gen_fields(c)
+    c.extract("metaenc", "MetaEnc.lean")
     c.lean("C10")
+    c.trusted_base += [
+        "encoding/json gives back every valid-UTF-8 string, bool, []string and map[string]string it is given (sampled by every C10 run case); "
+        "bufio.Reader buffering is invisible to ReadHeader (lines up to 9000 bytes, CR at the 4096-byte boundary sampled)",
+        "go-message textproto v0.18.2 as pinned by go.mod: WriteHeader/ReadHeader are modelled by hand (Model/Wire.lean) and tied by C10 parse/rt differential runs, "
+        "including malformed input; formatHeaderField (fields added with Header.Add) is not modelled - its output is checked to be well-formed on every generated case",
+    ]
     if c.replay:
         harness(c, 1, replay_ops=c.replay.get("replay_ops") or [])
     else:
-        harness(c, 6000 if c.thorough else 600)
+        harness(c, 12000 if c.thorough else 1500)
 
     def search():
         c.seed += 1000
-        harness(c, 3000)
+        harness(c, 6000)
 
     return c.finish(
-        rule="",
-        explanation="",
+        rule="(a) header blobs: 0-48 fields, names from a realistic pool and random printable names, values empty / blank / 8-bit (UTF-8 and raw) / NUL, bare CR, DEL / "
+        "1-9000 bytes without a space (across the 998 limit and the 4096-byte bufio buffer, CR at the boundary), 0-4 continuation lines incl. blank-only ones, duplicates, CRLF / bare LF / mixed line ends, "
+        "with and without the blank line, followed by body bytes; 10-30% deliberately broken (no colon, bad key byte, empty key, leading blank, empty line inside) - parsed by the real ReadHeader and by the model; "
+        "(b) raw-field lists through the real WriteHeader+ReadHeader and the model, 0-25% ill-shaped fields; "
+        "(c) messages through the REAL queue: header = what ReadHeader makes of a generated blob + 1-3 fields added the way maddy adds them (Received, Authentication-Results, DKIM-Signature, long words) + 4% junk raw fields; "
+        "bodies 0 B - 70 kB (and 1 MiB - 3 MiB) as MemoryBuffer or FileBuffer (removed right after Commit), text / all byte values / dot and CRLF.CRLF patterns / bare CR LF NUL / zeros; "
+        "envelopes: null sender, ASCII, IDN U-label and A-label, quoted local parts with spaces, quotes, @, controls, UTF-8 local parts, <>&, backslash, U+2028, 1-16 recipients, duplicates, OriginalRcpts nil / 0-11 entries, "
+        "2% strings that are not valid UTF-8 (model predicts the U+FFFD replacement; outside the monitor's domain since the endpoint refuses them); SMTPUTF8 / REQUIRETLS / TLS-Required override in all 8 combinations, override set before or after Start; "
+        "connection state absent / anonymous / authenticated (user name + password with JSON-escaped characters, AUTH= parameter); "
+        "histories of 1-10 attempts against a partial or atomic target (per recipient: delivered / temporary at body / temporary or permanent at RCPT / nobody accepted) with 0-8 restarts (also idle ones, also between Body and Commit); "
+        "(d) the same behind a real SMTP endpoint and pipeline over TCP (AUTH PLAIN, SMTPUTF8, REQUIRETLS, BODY=8BITMIME, TLS-Required: No header, dot-stuffed DATA, bodies above the 1 MiB spill threshold, addresses that are not valid UTF-8); "
+        "distinct = distinct op lines",
+        explanation="theorems over all headers, bodies, envelopes and histories; decide over the regenerated field table and code skeleton; "
+        "models tied to textproto and queue.go by differential runs; the monitor compares every attempt with what was accepted and greps the spool for the credentials",
         search=search,
     )
+
+
+if __name__ == "__main__" and len(sys.argv) > 1 and sys.argv[1] == "gen":
+    # bin/setup: regenerate Generated/MetaFields.lean without running the check
+    sys.path.insert(0, os.path.join(os.path.dirname(os.path.dirname(os.path.abspath(__file__))), "lib"))
+    import vlib
+    cc = vlib.Check("C10", tier="setup")
+    ok = gen_fields(cc)
+    print("MetaFields.lean", "regenerated" if ok else "FAILED")
+    sys.exit(0 if ok else 1)
